@@ -182,9 +182,30 @@ fn run_limited(out: &mut Out, seq: &Seq, pool: &[IpAddr], limit: usize, check_ea
 fn run_agg_vs_per(out: &mut Out, seq: &Seq, pool: &[IpAddr]) {
     let mut agg = AggregatedStats::new();
     let mut per = PerClientStats::verif_with_limit(pool.len() + 1);
-    for (op, ai, bytes) in seq {
+    // half of the sequences have both recorders cleared at one point (what the status timer does
+    // to the per-client recorder after publishing): the totals must agree before and after
+    let h = seq.iter().fold(0x9e37u64, |a, (op, ai, b)| a.wrapping_mul(31).wrapping_add((*op * 7 + *ai * 3 + *b) as u64));
+    let clear_at = if h % 2 == 0 && !seq.is_empty() { Some((h / 2) as usize % seq.len()) } else { None };
+    for (k, (op, ai, bytes)) in seq.iter().enumerate() {
         apply_real(&mut agg, *op, &pool[*ai], *bytes);
         apply_real(&mut per, *op, &pool[*ai], *bytes);
+        if clear_at == Some(k) {
+            if per.num_overflows() == 0 && totals_of(&agg) != totals_of(&per) {
+                out.violation("C17 aggregated-vs-per-client totals differ", &format!("aggregated {:?} per-client {:?}", totals_of(&agg), totals_of(&per)), seq_json(seq, pool.len() + 1));
+                return;
+            }
+            agg.clear();
+            per.clear();
+            out.obs("agg_vs_per_clears", 1);
+            if totals_of(&agg) != [0; 11] || totals_of(&per) != [0; 11] {
+                out.violation(
+                    "C17 clear leaves-counters",
+                    &format!("after clear(): aggregated totals {:?}, per-client totals {:?} (all must be zero)", totals_of(&agg), totals_of(&per)),
+                    seq_json(seq, pool.len() + 1),
+                );
+                return;
+            }
+        }
     }
     out.obs("agg_vs_per_compared", 1);
     if per.num_overflows() == 0 && totals_of(&agg) != totals_of(&per) {
@@ -218,6 +239,11 @@ fn run_merge(out: &mut Out, rng: &mut Rng, seq: &Seq, pool: &[IpAddr], via_csv: 
             w.clear();
         }
     };
+    // the reporter drains its queue once a second, i.e. several times within one reporting
+    // period: some snapshots are merged by an earlier drain, the rest by later ones
+    let dir = via_csv.map(|d| d.to_path_buf());
+    let mut rep = Reporter::new(q.clone(), &Duration::from_secs(3600), dir.clone());
+    let mut drains = 0;
     for (op, ai, bytes) in seq {
         let w = rng.usize_below(nworkers);
         apply_real(&mut workers[w], *op, &pool[*ai], *bytes);
@@ -225,6 +251,10 @@ fn run_merge(out: &mut Out, rng: &mut Rng, seq: &Seq, pool: &[IpAddr], via_csv: 
         if rng.chance(1, 6) {
             snap(&mut workers[w], &q);
             snapshots += 1;
+            if rng.chance(1, 3) {
+                rep.receive_client_stats();
+                drains += 1;
+            }
         }
     }
     for w in workers.iter_mut() {
@@ -233,8 +263,7 @@ fn run_merge(out: &mut Out, rng: &mut Rng, seq: &Seq, pool: &[IpAddr], via_csv: 
     }
     out.obs("merge_runs", 1);
     out.obs("snapshots_pushed", snapshots);
-    let dir = via_csv.map(|d| d.to_path_buf());
-    let mut rep = Reporter::new(q.clone(), &Duration::from_secs(3600), dir.clone());
+    out.obs("reporter_drains_within_one_period", drains + 1);
     rep.receive_client_stats();
     let merged: HashMap<IpAddr, Ctrs> = rep.verif_merged().map(|c| (c.ip_addr, ctrs_of(c))).collect();
     let desc = json!({"kind":"stats-merge","workers":nworkers,"ops":seq.len()});
